@@ -530,6 +530,22 @@ func (c *Ctx) bvBin(op Op, a, b *Term) *Term {
 			return a
 		}
 	case OBvOr:
+		// byte assembly  zext(x) | zext(y)<<k  with k = width(x)  ==>  zext(concat(y, x))
+		if ia, sa, ok := placed(a); ok {
+			if ib, sb, ok := placed(b); ok {
+				if sa > sb {
+					ia, sa, ib, sb = ib, sb, ia, sa
+				}
+				if sb == sa+ia.sort.W && sb+ib.sort.W <= w {
+					cc := c.Concat(ib, ia)
+					r := c.Zext(w, cc)
+					if sa > 0 {
+						r = c.bvBin(OBvShl, r, c.BVBig(w, big.NewInt(int64(sa))))
+					}
+					return r
+				}
+			}
+		}
 		if a.isConst() {
 			a, b = b, a
 		}
@@ -924,4 +940,20 @@ func (c *Ctx) FP(bits uint64) *Term {
 
 func (c *Ctx) fpOp(op Op, s Sort, p1 int, args ...*Term) *Term {
 	return c.mk(op, s, "", p1, 0, args...)
+}
+
+// placed recognises  zext(inner) << k  (k constant, possibly 0) and returns inner and k.
+func placed(t *Term) (*Term, int, bool) {
+	if t.isConst() {
+		return nil, 0, false
+	}
+	switch t.op {
+	case OZext:
+		return t.args[0], 0, true
+	case OBvShl:
+		if t.args[1].isConst() && t.args[1].big == nil && t.args[0].op == OZext {
+			return t.args[0].args[0], int(t.args[1].val), true
+		}
+	}
+	return nil, 0, false
 }
